@@ -119,3 +119,28 @@ Proof.
   split; [vm_compute; reflexivity|]. split; [now inversion F|split; reflexivity].
 Qed.
 Print Assumptions C15_programs_example.
+
+(** Tie to the source by translation.  Generated/PathGen.v is re-emitted from yarl/_path.py
+    of the working tree on every run (harness/gen_model.py: Python ast -> Gallina, a Python
+    list kept in its own order, pop under suppress(IndexError) = removelast); the translated
+    functions are the model the theorems above are about, so C15_normalize_path_is_rfc,
+    C15_no_dot_segments, C15_idempotent ... hold of what the source says now. *)
+From Yarl Require Import Generated.PathGen Proofs.GenPathProofs.
+Theorem C15_source_normalize_path_segments : forall segs : list str,
+  gen_normalize_path_segments segs = normalize_path_segments segs.
+Proof. exact gen_normalize_path_segments_eq. Qed.
+Print Assumptions C15_source_normalize_path_segments.
+
+Theorem C15_source_normalize_path : forall p : str, gen_normalize_path p = normalize_path p.
+Proof. exact gen_normalize_path_eq. Qed.
+Print Assumptions C15_source_normalize_path.
+
+(** hence, stated directly on the translated source function: it is RFC 3986 5.2.4 on every
+    rooted path and leaves no dot segment *)
+Theorem C15_source_is_rfc : forall p : str,
+  remove_dot_segments (47%N :: p) = Some (gen_normalize_path (47%N :: p))
+  /\ no_dot_segments (gen_normalize_path (47%N :: p)) = true.
+Proof.
+  intros p. rewrite gen_normalize_path_eq. split; [apply normalize_path_is_rfc|apply normalize_path_nodots].
+Qed.
+Print Assumptions C15_source_is_rfc.
